@@ -49,6 +49,9 @@ type Node struct {
 type Program struct {
 	Main    *Node            `json:"main"`              // block
 	Modules map[string]*Node `json:"modules,omitempty"` // name -> block
+	// MinParens: the checks that honour it (C01) render this program with
+	// RenderMin - the grouping of operator chains is then left to the parser
+	MinParens bool `json:"min_parens,omitempty"`
 }
 
 // Clone deep-copies a node tree (resolver annotations are dropped).
